@@ -1,4 +1,5 @@
-"""Sensitivity audit: run the checks on the variants of selftest/variants.py, on the seeded changes (seeded/*/patch.diff) and on
+"""Sensitivity audit: run the checks on the variants of selftest/variants.py, on the seeded changes (seeded/*/patch.diff), on the reverse of every
+repair made to /repo (reverts/*.diff: the defect must be reported again) and on
 the corpus of behaviour-preserving refactorings (benign/*/*.diff: every check must stay silent on them).
 
     ./check --selftest [Cxx]      run the whole corpus (or the variants relevant to one property), print a table, exit 0 iff every
@@ -102,6 +103,17 @@ def jobs_for(pid=None):
             if pid and pid not in exp:
                 continue
             jobs.append((f"seeded/{s}", exp, None, [pid] if pid else sorted(exp), os.path.join(sd, s, "patch.diff")))
+    # regression corpus: the reverse of every repair (`fixed:` lines of KNOWN_FINDINGS.txt) re-introduces a genuine defect of the pinned
+    # tree; the property the line names must report it again (tools/make_reverts.py)
+    rd = os.path.join(HERE, "reverts")
+    if os.path.exists(os.path.join(rd, "index.json")):
+        for e in json.load(open(os.path.join(rd, "index.json"))):
+            if not e.get("applies"):
+                continue
+            exp = {e["property"]}
+            if pid and pid not in exp:
+                continue
+            jobs.append((f"reverts/{e['commit']}", exp, None, [pid] if pid else sorted(exp), os.path.join(rd, e["commit"] + ".diff")))
     # behaviour-preserving refactorings written by independent sub-agents: every check must stay silent on each of them
     bd = os.path.join(HERE, "benign")
     if os.path.isdir(bd):
